@@ -172,6 +172,12 @@ class Wire:
         self.nsent = 0               # bytes delivered to the server
         self.npushed = 0             # bytes the server has queued so far
         self._last_push = 0.0
+        self._dropped = False
+        self._corrupt = None
+        self._raw_off = 0
+        c = net.cfg.get("corrupt")
+        if c is not None and c.get("wire", 0) in (self.id, "all"):
+            self._corrupt = [dict(o) for o in c["ops"]]
         w.log("wire_open", self.id, endpoint, self.opened_by)
         peer.attach(self)
         peer.on_open(w.now)
@@ -183,10 +189,76 @@ class Wire:
         never coalesced with others nor cut (unless larger than max_bytes)."""
         t = max(t, self._last_push)
         self._last_push = t
+        if self._corrupt is not None and data is not EOF and data is not RESET and data:
+            data = self._apply_corruption(t, data)
+            if data is None:
+                return
+        if self._dropped:
+            return
         if data is EOF or data is RESET or data:
             self.inq.append([t, data, atomic])
             if data is not EOF and data is not RESET:
                 self.npushed += len(data)
+
+    def _apply_corruption(self, t, data):
+        """Corrupting peer (C15): mutate the server->client byte stream at absolute
+        offsets of the uncorrupted stream."""
+        import random as _random
+
+        w = self.w
+        off = self._raw_off
+        self._raw_off += len(data)
+        out = bytearray(data)
+        shift = 0
+        for o in self._corrupt:
+            if o.get("done"):
+                continue
+            at = o["at"]
+            if not (off <= at < off + len(data)):
+                continue
+            o["done"] = True
+            i = at - off + shift
+            kind = o["kind"]
+            rr = _random.Random(o.get("seed", 0))
+            w.stats["hostile:corrupt_" + kind] += 1
+            w.log("corrupt", self.id, kind, at)
+            if kind == "flip":
+                out[i] ^= 1 << rr.randrange(8)
+            elif kind == "set":
+                out[i] = o.get("byte", rr.randrange(256))
+            elif kind == "insert":
+                junk = bytes(rr.randrange(256) for _ in range(o.get("n", 4)))
+                out[i:i] = junk
+                shift += len(junk)
+            elif kind == "delete":
+                n = o.get("n", 1)
+                del out[i:i + n]
+                shift -= n
+            elif kind == "dup":
+                n = o.get("n", 8)
+                seg = bytes(out[i:i + n])
+                out[i:i] = seg
+                shift += len(seg)
+            elif kind in ("eof", "reset"):
+                del out[i:]
+                if out:
+                    self.inq.append([t, bytes(out), False])
+                    self.npushed += len(out)
+                self.inq.append([t, EOF if kind == "eof" else RESET, False])
+                self._dropped = True
+                self.peer_closed = True
+                return None
+            elif kind == "garbage":
+                n = o.get("n", 64)
+                del out[i:]
+                out += bytes(rr.randrange(256) for _ in range(n))
+                self.inq.append([t, bytes(out), False])
+                self.npushed += len(out)
+                self.inq.append([t + 0.001, EOF, False])
+                self._dropped = True
+                self.peer_closed = True
+                return None
+        return bytes(out)
 
     def notify(self):
         ws, self.waiters = self.waiters, []
